@@ -53,11 +53,15 @@ def digest(obj):
 
 
 def grid_settings(grid):
+    """the Grid's own settings through its public surface (axes, positions, rules, fill values, default shifts), plus
+    the metric registry and the face-connection table where the implementation exposes them"""
     out = []
     for n, ax in grid.axes.items():
-        out.append((n, dict(ax.coords), ax.boundary, ax.fill_value, dict(ax._default_shifts)))
-    out.append(sorted((tuple(sorted(k)), [str(m.name) for m in v]) for k, v in grid._metrics.items()))
-    out.append(repr(grid._face_connections))
+        out.append((n, dict(ax.coords), ax.boundary, ax.fill_value, dict(ax.default_shifts)))
+    reg = getattr(grid, "_metrics", None)
+    if isinstance(reg, dict):
+        out.append(sorted((tuple(sorted(k)), [str(getattr(m, "name", m)) for m in v]) for k, v in reg.items()))
+    out.append(repr(getattr(grid, "_face_connections", None)))
     return digest(out)
 
 
